@@ -1,39 +1,13 @@
-//! C17 bounded twin: cfg(kani) child module of `index/binarysorted.rs`.
-//! BOUNDED stand-in (never counted as proved): 2 packs x <= 2 blobs, ids symbolic in one byte,
-//! symbolic blob types/lengths, all three index modes.  Runs the REAL collector -> index pipeline
-//! (IndexCollector::new, extend, get_id, has, total_size, PackIndexes::next).  `into_index` and
-//! `into_iter` call rayon's par_sort_unstable*, which crashes the Kani compiler (ICE in
-//! kani-compiler/src/intrinsics.rs:243); the harness performs their sort step with std's
-//! sort_unstable_by_key on the same private fields instead (into_index itself is proved by Verus).
+//! C17: cfg(kani) child module of `index/binarysorted.rs`.
+//! BOUNDED stand-in (never counted as proved) for `PackIndexes::next`, which Verus cannot ingest
+//! ("complex break expressions").  The iterator state is built directly in the shape `Index::into_iter`
+//! leaves it in (entries grouped by ascending pack index): tree packs {T0: 2 blobs, T1: 0 blobs},
+//! data packs {D0: 1 blob}; ids, offsets and lengths symbolic.  `into_iter` itself (rayon
+//! par_sort_unstable_by) crashes the Kani compiler and is not run here.
+//! An end-to-end collector twin (extend + sort + lookup with symbolic ids) was tried and dropped: it
+//! did not finish within 25 minutes; those functions are proved unboundedly by the Verus units.
 use super::*;
 use crate::id::Id;
-
-/// what `IndexCollector::into_index` does, with std's sort in place of rayon's
-fn into_index_std(c: IndexCollector) -> Index {
-    Index(c.0.map(|_, mut tc| {
-        match &mut tc.entries {
-            EntriesVariants::None => {}
-            EntriesVariants::Ids(ids) => ids.sort_unstable(),
-            EntriesVariants::FullEntries(entries) => entries.sort_unstable_by_key(|e| e.id),
-        }
-        let packs = tc.packs.into_iter().map(|(id, _)| id).collect();
-        TypeIndex { packs, entries: tc.entries, total_size: tc.total_size }
-    }))
-}
-
-/// what `Index::into_iter` does, with std's sort in place of rayon's
-fn into_iter_std(index: Index) -> PackIndexes {
-    PackIndexes {
-        c: Index(index.0.map(|_, mut tc| {
-            if let EntriesVariants::FullEntries(entries) = &mut tc.entries {
-                entries.sort_unstable_by(|e1, e2| e1.pack_idx.cmp(&e2.pack_idx));
-            }
-            tc
-        })),
-        tpe: BlobType::Tree,
-        idx: BlobTypeMap::default(),
-    }
-}
 
 fn bid(b: u8) -> BlobId {
     let mut a = [0u8; 32];
@@ -45,175 +19,48 @@ fn pid(b: u8) -> PackId {
     a[0] = b;
     PackId::from(Id::new(a))
 }
-
-fn any_type() -> BlobType {
-    if kani::any() { BlobType::Tree } else { BlobType::Data }
-}
-
-fn any_index_type() -> IndexType {
-    let k: u8 = kani::any();
-    kani::assume(k < 3);
-    match k {
-        0 => IndexType::Full,
-        1 => IndexType::DataIds,
-        _ => IndexType::OnlyTrees,
-    }
-}
-
-struct B {
-    id: u8,
-    off: u32,
-    len: u32,
-}
-
-fn pack(id: u8, tpe: BlobType, n: usize, b0: &B, b1: &B) -> IndexPack {
-    let mut p = IndexPack { id: pid(id), blobs: Vec::new(), time: None, size: Some(100) };
-    if n >= 1 {
-        p.add(bid(b0.id), tpe, b0.off, b0.len, None);
-    }
-    if n >= 2 {
-        p.add(bid(b1.id), tpe, b1.off, b1.len, None);
-    }
-    p
+fn entry(id: u8, pack_idx: u32, off: u32, len: u32) -> SortedEntry {
+    SortedEntry { id: bid(id), pack_idx, location: BlobLocation { offset: off, length: len, uncompressed_length: None } }
 }
 
 #[kani::proof]
-#[kani::unwind(6)]
-fn c17_bounded_lookup_matches_listing() {
-    let it = any_index_type();
-    let t0 = any_type();
-    let t1 = any_type();
-    let n0: usize = kani::any();
-    let n1: usize = kani::any();
-    kani::assume(n0 <= 2 && n1 <= 2);
-    let b = [
-        B { id: kani::any(), off: kani::any(), len: kani::any() },
-        B { id: kani::any(), off: kani::any(), len: kani::any() },
-        B { id: kani::any(), off: kani::any(), len: kani::any() },
-        B { id: kani::any(), off: kani::any(), len: kani::any() },
-    ];
-    // ids are assumed small so that one byte identifies them (bound)
-    kani::assume(b[0].id < 4 && b[1].id < 4 && b[2].id < 4 && b[3].id < 4);
-    let p0 = pack(1, t0, n0, &b[0], &b[1]);
-    let p1 = pack(2, t1, n1, &b[2], &b[3]);
+#[kani::unwind(34)]
+fn c17_bounded_pack_indexes_next() {
+    let ids: [u8; 3] = [kani::any(), kani::any(), kani::any()];
+    let offs: [u32; 3] = [kani::any(), kani::any(), kani::any()];
+    let lens: [u32; 3] = [kani::any(), kani::any(), kani::any()];
+    let tree = TypeIndex {
+        packs: vec![pid(10), pid(11)],
+        entries: EntriesVariants::FullEntries(vec![entry(ids[0], 0, offs[0], lens[0]), entry(ids[1], 0, offs[1], lens[1])]),
+        total_size: 0,
+    };
+    let data = TypeIndex {
+        packs: vec![pid(20)],
+        entries: EntriesVariants::FullEntries(vec![entry(ids[2], 0, offs[2], lens[2])]),
+        total_size: 0,
+    };
+    let mut map = BlobTypeMap::<TypeIndex>::from_fn(|_| TypeIndex { packs: Vec::new(), entries: EntriesVariants::None, total_size: 0 });
+    map[BlobType::Tree] = tree;
+    map[BlobType::Data] = data;
+    let mut it = PackIndexes { c: Index(map), tpe: BlobType::Tree, idx: BlobTypeMap::default() };
 
-    let mut c = IndexCollector::new(it);
-    c.extend(vec![p0, p1]);
-    let index = into_index_std(c);
-
-    // query
-    let qt = any_type();
-    let q: u8 = kani::any();
-    kani::assume(q < 4);
-    let qid = bid(q);
-
-    // the listing, written out: blob k is listed under type `tk` in pack `pk` iff present
-    let present = [n0 >= 1, n0 >= 2, n1 >= 1, n1 >= 2];
-    let tk = [t0, t0, t1, t1];
-    let pk = [1u8, 1, 2, 2];
-    let mut listed = false;
-    let mut k = 0;
-    while k < 4 {
-        if present[k] && tk[k] == qt && b[k].id == q {
-            listed = true;
-        }
-        k += 1;
-    }
-
-    let full = matches!(it, IndexType::Full) || qt == BlobType::Tree;
-    let ids_only = matches!(it, IndexType::DataIds) && qt == BlobType::Data;
-
-    // has: exact presence for the information retained
-    let has = index.has(qt, &qid);
-    if full || ids_only {
-        assert!(has == listed, "has() answers exactly 'some index file lists (type, id)'");
-    } else {
-        assert!(!has, "trees-only index: no data answers");
-    }
-
-    // get_id: succeeds exactly when listed (full mode) and returns one such listing
-    let got = index.get_id(qt, &qid);
-    if full {
-        assert!(got.is_some() == listed, "get_id() succeeds exactly when listed");
-        if let Some(e) = got {
-            let mut ok = false;
-            let mut k = 0;
-            while k < 4 {
-                if present[k] && tk[k] == qt && b[k].id == q && e.pack == pid(pk[k]) && e.location.offset == b[k].off && e.location.length == b[k].len {
-                    ok = true;
-                }
-                k += 1;
-            }
-            assert!(ok, "returned pack/offset/length are those of one such listing");
-        }
-    } else {
-        assert!(got.is_none());
-    }
-
-    // totals: sum of listed pack sizes per type (packs are filed under the type of their first blob; empty => Data)
-    let ft0 = if n0 == 0 { BlobType::Data } else { t0 };
-    let ft1 = if n1 == 0 { BlobType::Data } else { t1 };
-    let exp = u64::from(ft0 == qt) * 100 + u64::from(ft1 == qt) * 100;
-    assert!(index.total_size(qt) == exp, "size totals equal the sum of listed pack sizes");
-
-    kani::cover!(listed && full);
-    kani::cover!(!listed);
-    kani::cover!(ids_only && listed);
-    core::mem::forget(index);
-}
-
-/// PackIndexes: iterating the index yields every collected pack exactly once with exactly its blobs
-#[kani::proof]
-#[kani::unwind(6)]
-fn c17_bounded_pack_iteration_roundtrip() {
-    let t0 = any_type();
-    let t1 = any_type();
-    let n0: usize = kani::any();
-    let n1: usize = kani::any();
-    kani::assume(n0 <= 2 && n1 <= 2);
-    let b = [
-        B { id: kani::any(), off: kani::any(), len: kani::any() },
-        B { id: kani::any(), off: kani::any(), len: kani::any() },
-        B { id: kani::any(), off: kani::any(), len: kani::any() },
-        B { id: kani::any(), off: kani::any(), len: kani::any() },
-    ];
-    kani::assume(b[0].id < 4 && b[1].id < 4 && b[2].id < 4 && b[3].id < 4);
-    let p0 = pack(1, t0, n0, &b[0], &b[1]);
-    let p1 = pack(2, t1, n1, &b[2], &b[3]);
-    let mut c = IndexCollector::new(IndexType::Full);
-    c.extend(vec![p0, p1]);
-    let index = into_index_std(c);
-
-    let mut seen = [0usize; 2];
-    let mut blobs_seen = [0usize; 2];
-    let mut iter = into_iter_std(index);
-    let mut rounds = 0;
-    while rounds < 3 {
-        match iter.next() {
-            None => break,
-            Some(p) => {
-                let which = if p.id == pid(1) { 0 } else { 1 };
-                assert!(p.id == pid(1) || p.id == pid(2));
-                seen[which] += 1;
-                blobs_seen[which] += p.blobs.len();
-                let n = if which == 0 { n0 } else { n1 };
-                assert!(p.blobs.len() == n, "a pack comes back with exactly its blobs");
-                let mut j = 0;
-                while j < p.blobs.len() && j < 2 {
-                    let src0 = &b[which * 2];
-                    let src1 = &b[which * 2 + 1];
-                    let x = &p.blobs[j];
-                    let m0 = x.id == bid(src0.id) && x.location.offset == src0.off && x.location.length == src0.len;
-                    let m1 = n == 2 && x.id == bid(src1.id) && x.location.offset == src1.off && x.location.length == src1.len;
-                    assert!(m0 || m1, "every returned blob is one of the pack's listed blobs");
-                    j += 1;
-                }
-                core::mem::forget(p);
-            }
-        }
-        rounds += 1;
-    }
-    assert!(seen[0] == 1 && seen[1] == 1, "every collected pack is yielded exactly once");
-    assert!(rounds == 2);
-    kani::cover!(n0 == 2 && n1 == 2);
+    // 1st: tree pack 10 with exactly its two blobs, in order
+    let p = it.next().unwrap();
+    assert!(p.id == pid(10) && p.blobs.len() == 2);
+    assert!(p.blobs[0].id == bid(ids[0]) && p.blobs[0].tpe == BlobType::Tree && p.blobs[0].location.offset == offs[0] && p.blobs[0].location.length == lens[0]);
+    assert!(p.blobs[1].id == bid(ids[1]) && p.blobs[1].location.offset == offs[1]);
+    core::mem::forget(p);
+    // 2nd: empty tree pack 11
+    let p = it.next().unwrap();
+    assert!(p.id == pid(11) && p.blobs.is_empty());
+    core::mem::forget(p);
+    // 3rd: data pack 20 with its blob, typed Data
+    let p = it.next().unwrap();
+    assert!(p.id == pid(20) && p.blobs.len() == 1 && p.blobs[0].tpe == BlobType::Data && p.blobs[0].id == bid(ids[2]) && p.blobs[0].location.length == lens[2]);
+    core::mem::forget(p);
+    // then exhausted, and stays exhausted
+    assert!(it.next().is_none());
+    assert!(it.next().is_none());
+    kani::cover!(ids[0] == ids[2]);
+    core::mem::forget(it);
 }
